@@ -17,7 +17,7 @@ RULE = ("lifting cases: Vector (1-3 components, four dtypes, 0-d/1-d/2-d) x oper
         "unit, dtype, shape, or both raise); different component counts must raise ValueError.  product cases: norm, "
         "dot, cross compared as physical quantities with numpy on cgs values from the independent unit model, plus the "
         "algebraic laws a.b=b.a, axb=-bxa, a.(axb)=0, |axb|^2+(a.b)^2=|a|^2|b|^2 with operands in different compatible "
-        "units at 50%.  non-trivial = operands in different compatible units, or <3 components, or a non-Vector rhs.")
+        "units at 50%.  norm histories: norm interleaved with in-place updates of the Vector, of single components, component assignment, mutation of a returned norm and unit conversion; after each step norm must equal sqrt(sum components^2).  non-trivial = operands in different compatible units, or <3 components, or a non-Vector rhs.")
 ASSUMPTIONS = [
     "component Array operations are the reference for the lifting law (they are decided by C02/C07/C10)",
     "dot/cross are generated with equal component counts and equal shapes; cross with 3 components",
@@ -408,10 +408,92 @@ def products(case, r):
                   f"{case['a']['comps'][0]['dtype']}/{case['b']['comps'][0]['dtype']}")
 
 
+# ------------------------------------------------------------------ norm under histories of updates
+nh_op_st = st.one_of(
+    st.just({"o": "norm"}),
+    st.fixed_dictionaries({"o": st.just("imul_num"), "v": st.sampled_from([2.0, 0.5, -3.0])}),
+    st.fixed_dictionaries({"o": st.just("iadd_self")}),
+    st.fixed_dictionaries({"o": st.just("idiv_norm")}),
+    st.fixed_dictionaries({"o": st.just("comp_imul"), "c": st.integers(0, 2), "v": st.sampled_from([3.0, -1.0, 0.25])}),
+    st.fixed_dictionaries({"o": st.just("comp_assign"), "c": st.integers(0, 2), "v": st.sampled_from([1.0, 7.0, -2.0])}),
+    st.fixed_dictionaries({"o": st.just("mutate_result")}),
+    st.fixed_dictionaries({"o": st.just("to_unit"), "u": st.sampled_from(["cm", "km", "m"])}),
+)
+
+
+@st.composite
+def nh_case_st(draw):
+    nvec = draw(st.integers(2, 3))
+    v = draw(vs.vector_specs(units=["m"], dtypes=["float64", "float32"], shape=[draw(st.integers(1, 4))], nvec=nvec,
+                             allow_zero=False, lo=-1, hi=1))
+    return {"v": v, "ops": draw(st.lists(nh_op_st, min_size=2, max_size=8))}
+
+
+def norm_history(case, r):
+    v = vs.build(case["v"], osyris)
+    lowp = case["v"]["comps"][0]["dtype"] == "float32"
+    rtol = 1e-4 if lowp else 1e-9
+    n_updates = 0
+    seen_norm_before_update = False
+    with warnings.catch_warnings(), np.errstate(all="ignore"):
+        warnings.simplefilter("ignore")
+        for i, op in enumerate(case["ops"]):
+            o = op["o"]
+            try:
+                comps = list(v._xyz.values())
+                if o == "norm":
+                    pass
+                elif o == "imul_num":
+                    v *= op["v"]
+                    n_updates += 1
+                elif o == "iadd_self":
+                    v += v.copy()
+                    n_updates += 1
+                elif o == "idiv_norm":
+                    v /= v.norm
+                    n_updates += 1
+                elif o == "comp_imul":
+                    c = comps[op["c"] % len(comps)]
+                    c *= op["v"]
+                    n_updates += 1
+                elif o == "comp_assign":
+                    name = "xyz"[op["c"] % len(comps)]
+                    old = getattr(v, name)
+                    setattr(v, name, osyris.Array(values=np.full(old.shape, op["v"], dtype=old.dtype), unit=old.unit))
+                    n_updates += 1
+                elif o == "mutate_result":
+                    nn = v.norm
+                    nn *= 5.0
+                elif o == "to_unit":
+                    if um.same_dims(um.from_pint(v.unit), um.parse("cm")):
+                        v = v.to(op["u"])
+                nrm = v.norm
+            except Exception as e:
+                r.bad(["norm-history", "raises", o, type(e).__name__], f"step {i}: {e!r}")
+                return
+            comps = list(v._xyz.values())
+            if len({str(c.unit) for c in comps}) == 1:
+                want = np.sqrt(sum(np.asarray(c.values, dtype=np.float64) ** 2 for c in comps))
+                got = np.asarray(nrm.values, dtype=np.float64)
+                if nrm.unit != comps[0].unit:
+                    r.bad(["norm-history", "unit"], f"step {i} {o}: norm unit {nrm.unit}, components {comps[0].unit}")
+                    return
+                ok = (np.abs(got - want) <= rtol * np.abs(want)) | (got == want) | (np.isnan(got) & np.isnan(want))
+                if got.shape != want.shape or not np.all(ok):
+                    r.bad(["norm-history", "stale-or-wrong"], f"step {i} after {o}: norm {got.tolist()} but the components "
+                          f"give {want.tolist()}; ops={case['ops'][:i + 1]}")
+                    return
+    r.nontrivial(n_updates >= 1)
+    if n_updates:
+        r.label("has_update")
+
+
 def subs(ctx):
     return [
         Sub("lifting", lifting, strategy=lift_case_st(), quick=2500, thorough=15000,
             required={"nvec_mismatch": 0.02, "compatible_different_units": 0.05, "group_reflected": 0.05}),
         Sub("products", products, strategy=prod_case_st(), quick=1500, thorough=8000,
             required={"compatible_different_units": 0.15}),
+        Sub("norm_history", norm_history, strategy=nh_case_st(), quick=400, thorough=3000,
+            required={"has_update": 0.5}),
     ]
